@@ -32,7 +32,7 @@ def chain_case(draw):
     bufsizes = draw(st.lists(st.one_of(st.integers(1, max(1, n + 1)), st.sampled_from([1000, None])),
                              min_size=1, max_size=3, unique=True))
     return {"pre": pre, "acc": acc, "post": post, "flow": flow, "bufsizes": bufsizes,
-            "second_branch": draw(st.sampled_from(["none", "map_after", "stop_before", "fc_before", "stop_after"])),
+            "second_branch": draw(st.sampled_from(["none", "map_after", "stop_before", "fc_before", "stop_after", "mut_before"])),
             "stop_k": draw(st.integers(0, 4))}
 
 
@@ -44,6 +44,15 @@ def _quiet(thunk):
 
 def _other(v):
     return ("OTHER", R.split_val(v)[0])
+
+
+def _mutate_in_place(v):
+    d, c = R.split_val(v)
+    if isinstance(d, list):
+        d.append("changed-by-another-branch")
+    if c is not None:
+        c["changed-by-another-branch"] = True
+    return v
 
 
 class _OtherAcc(object):
@@ -79,6 +88,9 @@ def judge_chain(case):
             branches.append((Slice(case["stop_k"]), _OtherAcc()))
         elif sb == "fc_before":
             branches.insert(0, _OtherAcc())
+        elif sb == "mut_before":
+            # an earlier branch that changes what it is handed in place (bare mutable data and contexts)
+            branches.insert(0, (_mutate_in_place, _OtherAcc()))
         got = _quiet(lambda: list(Split(branches, bufsize=b).run(iter(R.mkflow(flowjs)))))
         got = [g for g in got if not (isinstance(g, tuple) and len(g) == 2 and g[0] == "OTHER")]
         if got != ref:
@@ -170,6 +182,11 @@ class KRunBreak(KRun):
     _can_break_flow = True
 
 
+class KRunBreakFalse(KRun):
+    """the attribute is present with a false value (its presence is what counts)"""
+    _can_break_flow = False
+
+
 class KFC(object):
     def __init__(self):
         self.vals = []
@@ -234,6 +251,23 @@ class KRunAttr(object):
     request = None
 
 
+class KCustomFalsy(KCustom):
+    """the same element, false as an object (an empty container): an adapter must test for None, not truth"""
+
+    def __len__(self):
+        return 0
+
+
+class KRunFalsy(KRun):
+    def __bool__(self):
+        return False
+
+
+class KFCFalsy(KFC):
+    def __len__(self):
+        return 0
+
+
 class Collector(object):
     def __init__(self):
         self.got = []
@@ -248,10 +282,11 @@ def _genfunc(flow):
 
 
 KINDS = {
-    "callable_obj": KCallable, "custom": KCustom, "run_el": KRun, "run_el_break": KRunBreak,
+    "callable_obj": KCallable, "custom": KCustom, "run_el": KRun, "run_el_break": KRunBreak, "run_el_break_false": KRunBreakFalse,
     "fc": KFC, "fr": KFR, "fill_into_el": KFillInto, "iterable": lambda: [7, 8, 9],
     "lambda": lambda: (lambda v: ("l", v)), "none": lambda: None, "junk": lambda: 5,
     "genfunc": lambda: _genfunc, "call_fc": KCallFC, "fc_fr": KFCFR,
+    "custom_falsy": KCustomFalsy, "run_el_falsy": KRunFalsy, "fc_falsy": KFCFalsy,
     "call_fill_into": KCallFillInto, "call_run_attr": KCallRunAttr, "run_attr": KRunAttr,
 }
 ADAPTERS = ["Call", "Run", "FillInto", "FillCompute", "SourceEl"]
@@ -271,7 +306,7 @@ def judge_matrix(case):
     custom = {"Call": "my_call", "Run": "my_run", "FillInto": "my_fill_into",
               "FillCompute": "my_fill", "SourceEl": "my_source"}[a]
     name = {"default": None, "custom": custom, "missing": "no_such_method", "noncallable": "attr"}[nm]
-    has_custom = k == "custom"
+    has_custom = k in ("custom", "custom_falsy")
     # expected: ('ok', checker) or 'reject'
     expect = "reject"
     if a == "Call":
@@ -418,7 +453,7 @@ CHECKS = [
                "Sequence.run vs Split([chain], bufsize in {1..n+1,1000,None}) (optionally beside a second branch) vs FillComputeSeq vs FillSeq+compute+post. "
                "Non-trivial = >=1 pre and >=1 post element, flow>=2 and a bufsize smaller than the flow; or a Slice pre-element."),
     Check("adapter_matrix", judge_matrix, cases=cases_matrix, exhaustive=True,
-          rule="complete matrix adapter {Call,Run,FillInto,FillCompute,SourceEl} x 17 element kinds x method-name choice {default, existing custom, missing, non-callable}: "
+          rule="complete matrix adapter {Call,Run,FillInto,FillCompute,SourceEl} x 21 element kinds x method-name choice {default, existing custom, missing, non-callable}: "
                "the adapter's method equals the wrapped method on sample inputs, or construction raises LenaTypeError."),
     Check("adapter_misc", judge_adapter_misc, strategy=strat_adapter_misc, quick=300, thorough=5000,
           rule="SourceEl over re-iterable containers gives the same flow on every call (also after a partial read); Run(None, run=f)."),
